@@ -11,7 +11,7 @@ EXPLANATION = ("L3: `rf.eq` (cleaned curve equals the original, every u), `rf.mi
 ASSUMPTIONS = ["weights positive; minimality is asserted for polynomial curves (as the property states)"]
 
 
-def inflate(rng, curve, steps):
+def inflate(rng, curve, steps, grid=GRID):
     hist = []
     for _ in range(steps):
         U = [frac(x) for x in curve.knotvector]
@@ -20,7 +20,7 @@ def inflate(rng, curve, steps):
         if rng.random() < 0.6:
             nodes = []
             for _ in range(rng.randint(1, 2)):
-                x = rng.choice(sorted(set(U))[1:-1] + [a + (b - a) * rng.choice(GRID)])
+                x = rng.choice(sorted(set(U))[1:-1] + [a + (b - a) * rng.choice(grid)])
                 if U.count(x) + nodes.count(x) < p + 1:
                     nodes.append(x)
             if nodes:
@@ -43,6 +43,13 @@ def run_case(ctx, case):
     rec.count("weights", "rational" if M[2] is not None else "polynomial")
     cx = make_curve(*X)
     sx = curve_state(cx)
+    if c.get("twin"):
+        # the same cleaning on float data first (anything memoised on numerically equal knot tuples is then float)
+        def twin():
+            t = float_twin(*X)
+            t.clean()
+        impl(twin)
+        rec.count("twin", "float-first")
     if order == "clean":
         r = impl(lambda: cx.clean())
     elif order == "degree-knot":
@@ -97,9 +104,16 @@ def run_case(ctx, case):
 
 def run(ctx):
     rng = ctx["rng"]
-    for i in range(budget(ctx, 45, 600)):
+    ndy = budget(ctx, 8, 80)
+    for i in range(ndy + budget(ctx, 45, 600)):
         rat = rng.random() < 0.25
         U, P, W = rand_curve(rng, pmax=2 if rat else 3, nintmax=2, maxmult=None, weights=("pos" if rat else "none"), force_zero=(i % 7 == 0))
+        dyadic = i < ndy
+        if dyadic:
+            # knots exactly representable as floats + float twin first
+            U = rand_dyadic_kv(rng, pmax=2, nintmax=1)
+            P = rand_points(rng, kv_info(U)[1], rng.choice([1, 2]))
+            W = None
         p, n, knots = kv_info(U)
         if any(U.count(k) == p + 1 for k in knots[1:-1]) and p == 0:
             pass
@@ -110,7 +124,7 @@ def run(ctx):
                 ctx["rec"].count("skipped", "non-minimal start")
                 continue
         cx = make_curve(U, P, W)
-        hist = inflate(rng, cx, rng.randint(1, 4))
+        hist = inflate(rng, cx, rng.randint(1, 4), grid=(DYADIC if dyadic else GRID))
         X = curve_state(cx)
-        order = rng.choice(["clean", "clean", "degree-knot", "knot-degree"])
-        run_case(ctx, ser(dict(kind="clean", U=U, P=P, W=W, X=dict(U=X[0], P=X[1], W=X[2]), hist=hist, order=order)))
+        order = rng.choice(["clean", "clean", "degree-knot", "knot-degree"]) if not dyadic else "clean"
+        run_case(ctx, ser(dict(kind="clean", U=U, P=P, W=W, X=dict(U=X[0], P=X[1], W=X[2]), hist=hist, order=order, twin=dyadic)))
